@@ -177,6 +177,7 @@ func c14Kademlia(r *ev.Run, g *rng.R) {
 		go func() {
 			defer wg.Done()
 			var kept [][]byte
+			lent, lentVal := make([]byte, 32), make([]byte, 8)
 			for i := 0; i < pick(r, 1500, 8000); i++ {
 				var id p2p.PeerID
 				lg.Fill(id[:])
@@ -184,8 +185,19 @@ func c14Kademlia(r *ev.Run, g *rng.R) {
 				if lg.Chance(1, 2) {
 					id = pool[lg.Intn(len(pool))]
 				}
-				key := id[:lg.Range(1, 32)]
-				switch lg.Intn(14) {
+				// keys and values live in a buffer the worker writes again after each call, the way a receive worker's
+				// buffer is: whatever the node or the cache keeps must be its own copy
+				copy(lent, id[:])
+				key := lent[:lg.Range(1, 32)]
+				val := lentVal[:lg.Range(1, 8)]
+				switch lg.Intn(16) {
+				case 14:
+					cache.ForEach(nil, func(e kademlia.Entry[int]) bool { use(e.Key); return true })
+				case 15:
+					if e := cache.Closest(key); e != nil {
+						use(e.Key)
+					}
+					cache.ForEachCloser(key, func(e kademlia.Entry[int]) bool { use(e.Key); return true })
 				case 12:
 					if info, ok := node.GetPeer(id); ok {
 						kept = append(kept, info)
@@ -208,7 +220,7 @@ func c14Kademlia(r *ev.Run, g *rng.R) {
 				case 0:
 					node.AddPeer(id, lg.Bytes(lg.Range(0, 24)))
 				case 1:
-					node.HandlePut(id, kademlia.PutReq{Key: key, Value: []byte("v"), TTLms: 1000})
+					node.HandlePut(id, kademlia.PutReq{Key: key, Value: val, TTLms: 1000})
 				case 2:
 					node.HandleGet(id, kademlia.GetReq{Key: key})
 				case 3:
@@ -232,6 +244,12 @@ func c14Kademlia(r *ev.Run, g *rng.R) {
 				default:
 					cache.Expire(nil, time.Now())
 					cache.Delete(key)
+				}
+				for j := range lent {
+					lent[j] ^= 0xa5
+				}
+				for j := range lentVal {
+					lentVal[j]++
 				}
 				ops.Add(1)
 			}
